@@ -345,9 +345,16 @@ func suiteRespPath(e *vh.Env) {
 func suiteReqPath(e *vh.Env) {
 	e.Result.Rule = "raw client requests (methods GET/POST/PUT/PATCH/DELETE/HEAD/OPTIONS, escaped paths incl. %2F %41 // and UTF-8 escapes, queries without ';', repeated and mixed-case header names, X-Forwarded-*/Forwarded/Via fields, hop-by-hop fields, bodies 0..3 MiB around 4096/32 KiB/1 MiB with Content-Length or chunked framing) through the real proxy binary and real agent code to a recording backend; non-trivial = request with a body of at least 4096 bytes, an escaped path or a repeated header"
 	be := newRawBackend()
-	rig := startProxy()
-	defer rig.stop()
-	rig.startAgent(be.host())
+	// four agents with their own proxies: plain, websocket shim (with script injection), banner, both.  None of the
+	// options concerns these requests (no shim paths, no HTML responses), so the backend must see the same in all four.
+	var rigs []*e2eRig
+	for _, extra := range [][]string{nil, {"VERIF_AGENT_SHIM=1", "VERIF_AGENT_SHIM_PATH=shimpath"}, {"VERIF_AGENT_BANNER=<b>verif</b>"},
+		{"VERIF_AGENT_SHIM=1", "VERIF_AGENT_SHIM_PATH=shimpath", "VERIF_AGENT_BANNER=<b>verif</b>"}} {
+		r := startProxy()
+		defer r.stop()
+		r.startAgent(be.host(), extra...)
+		rigs = append(rigs, r)
+	}
 	n := e.N(150, 6000)
 	sem := make(chan struct{}, 8)
 	var wg sync.WaitGroup
@@ -361,8 +368,9 @@ func suiteReqPath(e *vh.Env) {
 			defer wg.Done()
 			defer func() { <-sem }()
 			rng := e.Rng.Sub(i)
+			rig := rigs[i%len(rigs)]
 			method := rng.Pick([]string{"GET", "GET", "POST", "POST", "PUT", "PATCH", "DELETE", "HEAD", "OPTIONS"})
-			segs := []string{"a", "b%2Fc", "%41", "", "d.e", "%E2%82%AC", "x%20y", "~t", "p+q", "%2e%2e"}
+			segs := []string{"a", "b%2Fc", "%41", "", "d.e", "%E2%82%AC", "x%20y", "~t", "p+q", "%2e%2e", ".", ".."}
 			path := ""
 			for k := 1 + rng.Intn(4); k > 0; k-- {
 				path += "/" + rng.Pick(segs)
@@ -471,7 +479,7 @@ func suiteReqPath(e *vh.Env) {
 			c.SetDeadline(time.Now().Add(60 * time.Second))
 			go c.Write(w.Bytes())
 			resp, err := http.ReadResponse(bufio.NewReader(c), &http.Request{Method: method})
-			what := fmt.Sprintf("case %d: %s %s body=%d chunked=%v headers=%v", i, method, path, len(body), chunked, hdr)
+			what := fmt.Sprintf("case %d (agent options: %s): %s %s body=%d chunked=%v headers=%v", i, []string{"none", "shim", "banner", "shim+banner"}[i%len(rigs)], method, path, len(body), chunked, hdr)
 			if nominated != "" {
 				what += " Connection-nominated=" + nominated
 			}
@@ -537,6 +545,7 @@ func suiteReqPath(e *vh.Env) {
 			}
 			sort.Strings(added)
 			e.Count("added:" + strings.Join(added, ","))
+			e.Count("agent-options:" + []string{"none", "shim", "banner", "shim+banner"}[i%len(rigs)])
 			e.Eval(cs, len(body) >= 4096 || escaped || repeated)
 			if i < 3 {
 				e.Sample(map[string]interface{}{"method": method, "target": path, "headers": hdr, "body_len": len(body), "chunked": chunked, "backend_added_fields": added})
@@ -544,7 +553,9 @@ func suiteReqPath(e *vh.Env) {
 		}(i)
 	}
 	wg.Wait()
-	if c := rig.crashed(); c != "" {
-		e.Fail("C02:process-crashed", c, -1, nil, nil, nil)
+	for _, rig := range rigs {
+		if c := rig.crashed(); c != "" {
+			e.Fail("C02:process-crashed", c, -1, nil, nil, nil)
+		}
 	}
 }
